@@ -31,6 +31,7 @@ type HarnessCfg struct {
 	Tiers      []string           `json:"tiers"`  // default both
 	Note       string             `json:"note"`
 	Shrink     []string           `json:"shrink"` // names of shrink overlays this harness relies on (informational)
+	Workers    int                `json:"workers"`
 
 	Bounds    map[string]int `json:"-"`
 	TimeoutMs int            `json:"-"`
@@ -79,7 +80,6 @@ type Report struct {
 	Truncated       bool
 	Internal        []string
 
-	modelCache map[string]*Term
 	expInv     map[*Term]*Term
 	vioSeen    map[string]int
 }
@@ -87,7 +87,7 @@ type Report struct {
 func newReport(cfg *HarnessCfg) *Report {
 	return &Report{Cfg: cfg, Outside: map[string]int{}, Unwind: map[string]int{}, Inconclusive: map[string]int{},
 		AssertsSeen: map[string]int{}, Reached: map[string]bool{}, Funcs: map[string]bool{},
-		modelCache: map[string]*Term{}, expInv: map[*Term]*Term{}, vioSeen: map[string]int{}}
+		expInv: map[*Term]*Term{}, vioSeen: map[string]int{}}
 }
 
 func modelVal(t *Term, meta string) ModelVal {
@@ -140,6 +140,9 @@ func (it *Interp) assert(c *Term, label string) {
 	r := it.rep
 	r.AssertsSeen[label]++
 	if v, ok := it.lookupKnown(c); ok && v {
+		return
+	}
+	if v, ok := it.intervalDecide(c); ok && v {
 		return
 	}
 	nc := it.tb.Not(c)
